@@ -48,7 +48,7 @@ let apply (o : obj) (op : str) : obj * str =
   let n i = i2 p.(i) in
   match p.(0) with
   | "push" | "pushe" -> let (o', f) = unopt (push o (key_of (n 1)) (val_of (n 2))) in (o', tok_of_bool f)
-  | "pushf" -> let (o', f) = unopt (push_front o (key_of (n 1)) (val_of (n 2))) in (o', tok_of_bool f)
+  | "pushf" | "pushef" -> let (o', f) = unopt (push_front o (key_of (n 1)) (val_of (n 2))) in (o', tok_of_bool f)
   | "rmat" ->
     let (o', e) = unopt (remove_at o (nat (n 1))) in
     (o', match e with Some e -> estr e | None -> "none")
@@ -117,7 +117,7 @@ let m_apply (es : (n list * value) list) (op : str) : (n list * value) list * st
   let n i = i2 p.(i) in
   match p.(0) with
   | "push" | "pushe" -> let (es', f) = m_push es (key_of (n 1), val_of (n 2)) in (es', tok_of_bool f)
-  | "pushf" -> let (es', f) = m_push_front es (key_of (n 1), val_of (n 2)) in (es', tok_of_bool f)
+  | "pushf" | "pushef" -> let (es', f) = m_push_front es (key_of (n 1), val_of (n 2)) in (es', tok_of_bool f)
   | "rmat" -> let (es', e) = m_remove_at es (nat (n 1)) in (es', match e with Some e -> estr e | None -> "none")
   | "ins" ->
     let (es', r) = m_insert es (key_of (n 1)) (val_of (n 2)) in
